@@ -28,6 +28,8 @@ CLAIMED = {
             'equals the README semantics of the sample-level bound for all values (offline, online, pastified); non-multiples raise RTAMTException; dense time at symbolic tau'),
     'C09': ('6.C09', 'decompositions (add_sub_spec, several assertions, nested sub-specs, constants as operands/bounds) are enumerated; z3 shows the modular and the '
             'inlined monitor return the same values for all samples, for the four monitor kinds and after pastify()'),
+    'C10': ('6.C10', 'pre-reset history (k symbolic updates) and post-reset inputs are symbolic; z3 shows the reset object and a fresh object return equal values and '
+            'equal sampling counters; discrete and dense time, sub-specifications, pastified specifications, reset before the first update'),
 }
 NA = {
     'C14': 'the quantifier ranges over strings and every string is consumed by the ANTLR4 ATN interpreter, which cannot be encoded or '
